@@ -433,3 +433,22 @@ Fixpoint lex_loop (fuel : nat) (v : variant) (s : bytes) (c : cursor)
 
 Definition lex (v : variant) (s : bytes) : outcome (list token * list diag * nat) :=
   lex_loop (S (length s)) v s (start_cursor s).
+
+(* ------------------------------------------------------------------ specification predicates
+   (what C07 asks of the lexer's output; used by proofs/LexerProofs.v and Properties/C07.v) *)
+
+Definition token_wf (s : bytes) (t : token) : Prop := span_wf s (t_start t) (t_end t).
+Definition diag_wf (s : bytes) (d : diag) : Prop := span_wf s (d_start d) (d_end d).
+
+(* every token is non-empty and starts at or after the end of the previous one (hence token
+   starts are strictly increasing) *)
+Fixpoint tokens_ordered (lo : nat) (ts : list token) : Prop :=
+  match ts with
+  | [] => True
+  | t :: ts' => lo <= t_start t /\ t_start t < t_end t /\ tokens_ordered (t_end t) ts'
+  end.
+
+(* the cursor invariant: [c_rest] is the text from [c_pos] on, [c_pos] is inside the text and
+   on a character boundary *)
+Definition cursor_wf (s : bytes) (c : cursor) : Prop :=
+  c_rest c = skipn (c_pos c) s /\ c_pos c <= length s /\ is_boundary s (c_pos c) = true.
